@@ -421,6 +421,43 @@ func ruleEveryRecordDelivered(c *Ctx) {
 	}
 }
 
+// ruleScanCoversAllIDs: the paged scans of stores and regions end at the key of
+// the largest id there is (MaxUint64) — a smaller bound leaves records above
+// it unloaded and, for regions, stale leftovers above it unpruned.
+func ruleScanCoversAllIDs(c *Ctx) {
+	P := c.P
+	rule := c.Prop + "/paging"
+	loadRange := P.IMethod("server/kv", "Base", "LoadRange")
+	for _, fn := range []*ssa.Function{P.Method("server/core", "Storage", "LoadStores"), P.Func("server/core", "loadRegions")} {
+		c.saw(fnName(fn))
+		n := 0
+		for _, ci := range callsIn(fn, false, loadRange) {
+			a := callArgs(ci.Common())
+			if len(a) != 3 {
+				continue
+			}
+			n++
+			// the end key: a key helper given the constant MaxUint64
+			okEnd := false
+			for _, alt := range valueAlternatives(a[1], 3) {
+				cl, _ := callOf(alt)
+				if cl == nil {
+					continue
+				}
+				for _, arg := range cl.Call.Args {
+					if cst, ok := strip(arg).(*ssa.Const); ok && cst.Value != nil && cst.Value.ExactString() == "18446744073709551615" {
+						okEnd = true
+					}
+				}
+			}
+			c.Check(okEnd, rule, fmt.Sprintf("end of scan #%d in %s", n, fnName(fn)), "the key of id MaxUint64: every id is inside the scanned range", P.instrPos(ci), "")
+		}
+		if n == 0 {
+			c.Undec(rule, "LoadRange in "+fnName(fn), "found", "", "")
+		}
+	}
+}
+
 // ruleStaleReportsItself: when the checked insertion refuses a loaded record as
 // stale, the record it reports for deletion is that record — the argument — and
 // not the cached region it lost against (nil when it merely overlaps newer
@@ -702,13 +739,14 @@ func ruleRegionBackendSelection(c *Ctx) {
 
 func init() {
 	register("C17", "Persisted stores and regions are loaded back completely and pruned consistently", func(c *Ctx) {
-		c.Group("C17/key-format", "all store/region key builders (storage, bootstrap, weights) render ids with the same zero-padded width and segments", func() { ruleKeyFormats(c) })
+		c.Group("C17/key-format", "all store/region key builders (storage, bootstrap, weights) render ids with the same zero-padded width and segments", func() { ruleKeyFormats(c); ruleKeyFamilies(c) })
 		c.Group("C17/load-prunes", "loading deletes every region the callback reports from the backend being read, pages by last id + 1 and stops only on a short page; items live under their own id's key", func() {
 			ruleLoadAndPrune(c)
 			ruleLoadedOnceAfterSuccess(c)
 			ruleLoadCallbackChecked(c)
 			ruleStaleReportsItself(c)
 			ruleEveryRecordDelivered(c)
+			ruleScanCoversAllIDs(c)
 		})
 		c.Group("C17/weights-written", "SaveStoreWeight writes both weight keys unconditionally", func() { ruleWeightsAlwaysWritten(c) })
 		c.Group("C17/storage-errors", "no storage function reports success after a kv call whose error was not found nil", func() { ruleStorageErrorDiscipline(c) })
@@ -813,5 +851,135 @@ func ruleStorageMemoAfterOutcome(c *Ctx) {
 	}
 	if n == 0 {
 		c.Undec(rule, "Storage methods that both call the backend and update the object's own state", "at least 1 (LoadRegionsOnce)", "", "0")
+	}
+}
+
+// ruleKeyFamilies: the methods that save, load and delete one kind of record
+// agree on where it lives. For every noun (Rule, RuleGroup, Store, Region,
+// ScheduleConfig, …) the Save…/Load…/Delete…/Remove… methods of Storage build
+// their keys from the same path constants; a delete that addresses another
+// family's prefix removes nothing and reports success.
+func ruleKeyFamilies(c *Ctx) {
+	P := c.P
+	rule := c.Prop + "/key-format"
+	noun := func(name string) string {
+		for _, p := range []string{"LoadRangeBy", "LoadAll", "LoadMin", "GetAll", "Save", "Load", "Delete", "Remove"} {
+			if strings.HasPrefix(name, p) && len(name) > len(p) {
+				n := strings.TrimSuffix(strings.TrimPrefix(name, p), "Once")
+				if strings.HasSuffix(n, "s") && !strings.HasSuffix(n, "ss") && !strings.HasSuffix(n, "Status") {
+					n = strings.TrimSuffix(n, "s")
+				}
+				return n
+			}
+		}
+		return ""
+	}
+	// path constants a function builds keys from: constant string arguments of path.Join, in the method and in
+	// the helpers of the package it calls
+	var pathConsts func(fn *ssa.Function, depth int, out map[string]bool, seen map[*ssa.Function]bool)
+	pathConsts = func(fn *ssa.Function, depth int, out map[string]bool, seen map[*ssa.Function]bool) {
+		if fn == nil || seen[fn] || depth < 0 {
+			return
+		}
+		seen[fn] = true
+		for _, b := range fn.Blocks {
+			for _, ins := range b.Instrs {
+				cl, ok := ins.(*ssa.Call)
+				if !ok {
+					continue
+				}
+				f := cl.Call.StaticCallee()
+				if f == nil {
+					continue
+				}
+				if f.Pkg != nil && f.Pkg.Pkg.Path() == "path" && f.Name() == "Join" {
+					elems, _ := sliceElems(cl.Call.Args[0], map[ssa.Value]bool{})
+					for _, e := range elems {
+						if sv, ok := constString(e); ok && sv != "" {
+							out[sv] = true
+						}
+					}
+					continue
+				}
+				if fnPkgPath(f) == modPath+"/server/core" {
+					// a prefix handed to a generic helper (saveJSON(rulesPath, key, v), LoadRangeByPrefix(rulesPath+"/", f))
+					for _, a := range cl.Call.Args {
+						if sv, ok := constString(a); ok && strings.Trim(sv, "/") != "" {
+							out[strings.Trim(sv, "/")] = true
+						}
+					}
+					if f.Signature.Results().Len() >= 1 {
+						pathConsts(f, depth-1, out, seen)
+					}
+				}
+			}
+		}
+	}
+	groups := map[string][]*ssa.Function{}
+	for _, fn := range P.Funcs {
+		if P.isScaffold(fn) || fnPkgPath(fn) != modPath+"/server/core" || fn.Signature.Recv() == nil || fn.Parent() != nil {
+			continue
+		}
+		if rn := namedOf(fn.Signature.Recv().Type()); rn == nil || rn.Obj().Name() != "Storage" {
+			continue
+		}
+		if n := noun(fn.Name()); n != "" {
+			groups[n] = append(groups[n], fn)
+		}
+	}
+	var nouns []string
+	for n := range groups {
+		nouns = append(nouns, n)
+	}
+	sort.Strings(nouns)
+	nFam := 0
+	for _, n := range nouns {
+		fns := groups[n]
+		if len(fns) < 2 {
+			continue
+		}
+		sets := map[string][]string{}
+		var names []string
+		for _, fn := range fns {
+			out := map[string]bool{}
+			pathConsts(fn, 2, out, map[*ssa.Function]bool{})
+			if len(out) == 0 {
+				continue // generic helper (SaveJSON …): the key is the caller's
+			}
+			var ks []string
+			for k := range out {
+				ks = append(ks, k)
+			}
+			sort.Strings(ks)
+			sets[fn.Name()] = ks
+			names = append(names, fn.Name())
+		}
+		if len(names) < 2 {
+			continue
+		}
+		sort.Strings(names)
+		nFam++
+		// agreement on the family's prefix: the first path segment (the one no member may differ in)
+		ref := sets[names[0]]
+		ok, detail := true, ""
+		for _, m := range names[1:] {
+			common := false
+			for _, a := range sets[m] {
+				for _, b := range ref {
+					if a == b {
+						common = true
+					}
+				}
+			}
+			if !common {
+				ok = false
+				detail = fmt.Sprintf("%s builds keys from %v, %s from %v", names[0], ref, m, sets[m])
+			}
+		}
+		c.saw("(*server/core.Storage)." + names[0])
+		c.Check(ok, rule, "key family of "+n+" records ("+strings.Join(names, ", ")+")", "the save, load and delete methods of one kind of record share their path prefix", P.pos(fns[0].Pos()), detail)
+	}
+	if nFam < 8 {
+		c.Undec(rule, "record families in Storage", "at least 8", "", fmt.Sprint(nFam))
 	}
 }
